@@ -378,6 +378,7 @@ def roundtrip_fail(f, sr):
     F = spectra.freq_from_phase(ph, sr)
     if F.shape != f.shape:
         return 'round trip changes the shape %s -> %s' % (f.shape, F.shape)
+    f = np.asarray(f, dtype=float)          # the profile's values (it may be handed over integer-typed)
     exp = np.empty_like(f)
     exp[1:-1] = (f[1:-1] + f[2:]) / 2
     exp[0], exp[-1] = f[1], f[-1]
@@ -749,8 +750,11 @@ def run(ctx):
         sr = float(rs.choice([1.0, 128.0, 250.0, 1000.0]))
         t = np.arange(n) / n
         base = rs.uniform(0.5, sr / 8)
-        kind = i % 4
-        if kind == 0:
+        kind = i % 5
+        if kind == 4:
+            # an integer-TYPED profile (whole Hz): a staircase of small integers
+            f = (np.floor(base) + np.floor(3 * t)).astype([np.int64, np.int32, np.int16][i % 3])
+        elif kind == 0:
             f = np.full(n, base)
         elif kind == 1:
             f = base * (1 + 0.5 * np.sin(TWOPI * rs.uniform(0.5, 3) * t + rs.uniform(0, 6)))
@@ -762,7 +766,8 @@ def run(ctx):
         ctx.tol_cmp += 1
         msg = roundtrip_fail(f, sr)
         if msg:
-            violation('freq_from_phase(phase_from_freq)', msg, dict(kind='roundtrip', f=[float(v).hex() for v in f], sample_rate=sr))
+            violation('freq_from_phase(phase_from_freq)', ('' if f.dtype.kind == 'f' else '(profile of dtype %s) ' % f.dtype) + msg,
+                      dict(kind='roundtrip', f=[float(v).hex() for v in f], sample_rate=sr, dtype=str(f.dtype)))
 
     lap('roundtrip')
     # ---- oracle (d): accuracy sweep (regression guard)
@@ -842,7 +847,7 @@ def replay(rec):
         print(r)
         return r is not None
     if kind == 'roundtrip':
-        r = roundtrip_fail(unhex(i['f']), i['sample_rate'])
+        r = roundtrip_fail(np.asarray(unhex(i['f'])).astype(i.get('dtype', 'float64')), i['sample_rate'])
         print(r)
         return r is not None
     if kind == 'acc':
